@@ -750,6 +750,106 @@ func rulePAR1VOL(w *World, r *Report) {
 		}
 	}
 	r.floor("PAR1VOL", "parity table stores in par1 LoadParityData", m, 1)
+	// shard positions: data file i is shard i, parity row i is shard len(fileData)+i
+	bs := w.Fn("(*par1.Decoder).buildShards")
+	if bs == nil {
+		r.unk("PAR1VOL", "buildShards", "", "(*par1.Decoder).buildShards not found")
+		return
+	}
+	k := 0
+	for _, f := range region(bs) {
+		for _, b := range f.Blocks {
+			for _, in := range b.Instrs {
+				st, ok := in.(*ssa.Store)
+				if !ok {
+					continue
+				}
+				ia, ok := st.Addr.(*ssa.IndexAddr)
+				if !ok || typeStr(ia.X.Type()) != "[][]byte" {
+					continue
+				}
+				if _, isMake := stripAllConv(upAll(w, ia.X)).(*ssa.MakeSlice); !isMake {
+					continue
+				}
+				var src *ssa.IndexAddr
+				backSlice(st.Val, func(v ssa.Value) bool {
+					if src != nil {
+						return false
+					}
+					if x, ok := v.(*ssa.IndexAddr); ok {
+						p := resolvedPath(x.X).Path
+						if strings.HasSuffix(p, ".fileData") || strings.HasSuffix(p, ".parityData") {
+							src = x
+						}
+						return false
+					}
+					return true
+				})
+				if src == nil {
+					continue
+				}
+				k++
+				key := fmt.Sprintf("buildShards:shard#%d", k-1)
+				d := linOf(w, ia.Index, 0)
+				d.add(linOf(w, src.Index, 0), -1)
+				if strings.HasSuffix(resolvedPath(src.X).Path, ".fileData") {
+					if d.equal(&linSum{coef: map[string]int64{}, val: map[string]ssa.Value{}}) {
+						r.ok("PAR1VOL", key, w.ipos(st), "data file i is shard i")
+					} else {
+						r.bad("PAR1VOL", key, w.ipos(st), "the data of file i is not placed at shard i: the coder and the write-back address shards by file index")
+					}
+					continue
+				}
+				okOff := d.c == 0 && len(d.coef) == 1
+				for a, c := range d.coef {
+					ln := isBuiltinCall(d.val[a], "len")
+					if c != 1 || ln == nil || !strings.HasSuffix(resolvedPath(ln.Call.Args[0]).Path, ".fileData") {
+						okOff = false
+					}
+				}
+				if okOff {
+					r.ok("PAR1VOL", key, w.ipos(st), "parity row i is shard len(fileData)+i")
+				} else {
+					r.bad("PAR1VOL", key, w.ipos(st), "parity row i is not placed at shard len(fileData)+i: the coder takes it for another row (or for a data file)")
+				}
+			}
+		}
+	}
+	// the bulk form: copy(shards[len(fileData):], parityData)
+	for _, f := range region(bs) {
+		for _, c := range callInstrs(f) {
+			cc := isBuiltinCall(c.Value(), "copy")
+			if cc == nil || len(cc.Call.Args) != 2 {
+				continue
+			}
+			srcp := resolvedPath(stripAllConv(cc.Call.Args[1])).Path
+			if !strings.HasSuffix(srcp, ".parityData") && !strings.HasSuffix(srcp, ".fileData") {
+				continue
+			}
+			k++
+			key := fmt.Sprintf("buildShards:shard#%d", k-1)
+			sl, ok := stripAllConv(cc.Call.Args[0]).(*ssa.Slice)
+			good := false
+			if ok {
+				if strings.HasSuffix(srcp, ".fileData") {
+					good = sl.Low == nil
+					if c0, isC := constInt(sl.Low); sl.Low != nil && isC && c0 == 0 {
+						good = true
+					}
+				} else if sl.Low != nil {
+					if ln := isBuiltinCall(stripAllConv(sl.Low), "len"); ln != nil && strings.HasSuffix(resolvedPath(ln.Call.Args[0]).Path, ".fileData") {
+						good = true
+					}
+				}
+			}
+			if good {
+				r.ok("PAR1VOL", key, w.ipos(c), "rows copied to their positions after the data files")
+			} else {
+				r.bad("PAR1VOL", key, w.ipos(c), "the parity rows are not copied to shards[len(fileData):]")
+			}
+		}
+	}
+	r.floor("PAR1VOL", "shard placements in par1 buildShards", k, 2)
 }
 
 func isIntegerType(t types.Type) bool {
@@ -759,3 +859,138 @@ func isIntegerType(t types.Type) bool {
 
 var packetReaders = map[string]bool{"par2.readRecoveryPacket": true, "par2.readFileDescriptionPacket": true, "par2.readIFSCPacket": true}
 var packetWriters = map[string]bool{"par2.writeRecoveryPacket": true, "par2.writeFileDescriptionPacket": true, "par2.writeIFSCPacket": true}
+
+// ---------------------------------------------------------------------------
+// VANDER: the PAR2 parity matrix is the one of the specification
+
+const ruleVANDERText = "the PAR2 matrix: from rsec16.NewCoderPAR2Vandermonde the matrix is built by gf2p16.NewMatrixFromFunction(rows, columns, f) with rows the parity shard count and columns the data shard count of the constructor, and f(i, j) = c(j).Pow(i) with c(j) = generators[j] - row e of the recovery data is the e-th power of the j-th constant, with no offset in either index; writer and reader share this constructor, so a deviation keeps every round trip green and produces sets no other PAR2 client can use"
+
+// upAll follows parameters of private single-call-site helpers to the caller's argument.
+func upAll(w *World, v ssa.Value) ssa.Value {
+	for i := 0; i < 6; i++ {
+		u := w.up(stripAllConv(resolveSingle(v)))
+		if u == nil || u == v {
+			return v
+		}
+		v = u
+	}
+	return v
+}
+
+func funcValue(w *World, v ssa.Value) *ssa.Function {
+	v = upAll(w, v)
+	switch x := stripAllConv(v).(type) {
+	case *ssa.Function:
+		return x
+	case *ssa.MakeClosure:
+		if f, ok := x.Fn.(*ssa.Function); ok {
+			return f
+		}
+	}
+	return nil
+}
+
+func ruleVANDER(w *World, r *Report) {
+	r.rule("VANDER", ruleVANDERText)
+	ctor := w.Fn("rsec16.NewCoderPAR2Vandermonde")
+	if ctor == nil || len(ctor.Params) < 2 {
+		r.unk("VANDER", "NewCoderPAR2Vandermonde", "", "constructor not found")
+		return
+	}
+	n := 0
+	for _, f := range region(ctor) {
+		for _, c := range callInstrs(f) {
+			if staticCalleeShort(c.Common()) != "gf2p16.NewMatrixFromFunction" || len(c.Common().Args) != 3 {
+				continue
+			}
+			n++
+			key := fmt.Sprintf("matrix#%d", n-1)
+			rows, cols := upAll(w, c.Common().Args[0]), upAll(w, c.Common().Args[1])
+			if rows == ssa.Value(ctor.Params[1]) && cols == ssa.Value(ctor.Params[0]) {
+				r.ok("VANDER", key+":dims", w.ipos(c), "rows = parity shards, columns = data shards")
+			} else {
+				r.bad("VANDER", key+":dims", w.ipos(c), "the matrix does not have one row per parity shard and one column per data shard of the constructor's arguments")
+			}
+			el := funcValue(w, c.Common().Args[2])
+			if el == nil || len(el.Params) != 2 {
+				r.unk("VANDER", key+":element", w.ipos(c), "element function not resolved")
+				continue
+			}
+			why := ""
+			rets := 0
+			var colFn *ssa.Function
+			for _, b := range el.Blocks {
+				ret, ok := b.Instrs[len(b.Instrs)-1].(*ssa.Return)
+				if !ok || len(ret.Results) != 1 {
+					continue
+				}
+				rets++
+				pw, ok := stripAllConv(ret.Results[0]).(*ssa.Call)
+				if !ok || staticCalleeShort(&pw.Call) != "(gf2p16.T).Pow" || len(pw.Call.Args) != 2 {
+					why = "the element is not a power c(j).Pow(i)"
+					continue
+				}
+				if stripAllConv(pw.Call.Args[1]) != ssa.Value(el.Params[0]) {
+					why = "the exponent is not the row index itself"
+				}
+				base, ok := stripAllConv(pw.Call.Args[0]).(*ssa.Call)
+				if !ok || len(base.Call.Args) != 1 || base.Call.IsInvoke() {
+					why = "the base is not c(j)"
+					continue
+				}
+				if stripAllConv(base.Call.Args[0]) != ssa.Value(el.Params[1]) {
+					why = "the base is not taken at the column index itself"
+				}
+				if g := base.Call.StaticCallee(); g != nil {
+					colFn = g
+				} else {
+					colFn = funcValue(w, base.Call.Value)
+				}
+			}
+			if rets == 0 {
+				why = "element function has no return"
+			}
+			if why != "" {
+				r.bad("VANDER", key+":element", w.pos(el.Pos()), why+": element (i, j) of the PAR2 matrix is the i-th power of the j-th constant")
+				continue
+			}
+			r.ok("VANDER", key+":element", w.pos(el.Pos()), "element (i, j) = c(j).Pow(i)")
+			if colFn == nil || len(colFn.Params) != 1 {
+				r.unk("VANDER", key+":constant", w.ipos(c), "the column constant function was not resolved")
+				continue
+			}
+			why = ""
+			for _, b := range colFn.Blocks {
+				ret, ok := b.Instrs[len(b.Instrs)-1].(*ssa.Return)
+				if !ok || len(ret.Results) != 1 {
+					continue
+				}
+				ld, ok := stripAllConv(ret.Results[0]).(*ssa.UnOp)
+				var ia *ssa.IndexAddr
+				if ok && ld.Op == token.MUL {
+					ia, _ = ld.X.(*ssa.IndexAddr)
+				}
+				if ia == nil {
+					why = "the constant is not an element of the generators table"
+					continue
+				}
+				tb, _ := stripAllConv(ia.X).(*ssa.UnOp)
+				var g *ssa.Global
+				if tb != nil {
+					g, _ = tb.X.(*ssa.Global)
+				}
+				if g == nil || g.Name() != "generators" {
+					why = "the constant is not an element of the generators table"
+				} else if stripAllConv(ia.Index) != ssa.Value(colFn.Params[0]) {
+					why = "the constant of column j is not generators[j]"
+				}
+			}
+			if why != "" {
+				r.bad("VANDER", key+":constant", w.pos(colFn.Pos()), why)
+			} else {
+				r.ok("VANDER", key+":constant", w.pos(colFn.Pos()), "c(j) = generators[j]")
+			}
+		}
+	}
+	r.floor("VANDER", "matrix constructions under NewCoderPAR2Vandermonde", n, 1)
+}
